@@ -53,6 +53,17 @@ func (x *Exec) evalMulti(s *State, e ast.Expr) []*Value {
 		return []*Value{x.evalSelector(s, e)}
 	case *ast.StarExpr:
 		p := x.eval(s, e.X)
+		if p.K == KOpt && p.Inl != nil {
+			if p.NilT != nil && p.NilT.S == SBool {
+				x.requireSafe(s, Not(p.NilT), "nil-deref", e.Pos())
+			}
+			return []*Value{p.Inl}
+		}
+		if p.K == KPrim {
+			// pointer to a scalar that the model keeps inline (e.g. *sdk.Dec fields of stored records): nil-ness is not tracked
+			x.note("A-PTRPRIM: dereference of an inline scalar pointer at %s (nil-ness not tracked)", x.Pr.Pos(e.Pos()))
+			return []*Value{p}
+		}
 		if p.K != KPtr {
 			x.fail(e.Pos(), "dereference of %s", p.K)
 		}
